@@ -24,6 +24,20 @@ type c07Case struct {
 	File   string `json:"file"`
 	Family string `json:"family"`
 	Name   string `json:"name,omitempty"` // file name (default f.go)
+	// Siblings are further files of the same directory that are named on the
+	// same command line in the modes that write files.
+	Siblings []c07Sibling `json:"siblings,omitempty"`
+}
+
+type c07Sibling struct {
+	Name string `json:"name"`
+	Src  string `json:"src"`
+}
+
+// c07Blob is a declaration with a line longer than 64 KiB (the default
+// limit of a bufio.Scanner), followed by more code.
+func c07Blob() string {
+	return "\nfunc c07blob() string {\n\treturn \"" + strings.Repeat("x", 70000) + "\"\n}\n\nfunc c07after() {\n\tc07blob()\n}\n"
 }
 
 func (cs *c07Case) name() string {
@@ -313,13 +327,27 @@ func evalC07(cs *c07Case) (sig, msg string, hit bool, judged bool) {
 		_ = os.WriteFile(target, []byte(cs.File), 0o644)
 		args := append([]string{"-p", "p.patch"}, mode.Args...)
 		args = append(args, cs.name())
+		multi := strings.HasPrefix(mode.Name, "inplace") && len(cs.Siblings) > 0
+		if multi {
+			for _, sb := range cs.Siblings {
+				_ = os.WriteFile(filepath.Join(dir, sb.Name), []byte(sb.Src), 0o644)
+				args = append(args, sb.Name)
+			}
+		}
 		r := run.CLI(dir, nil, args...)
 		after, _ := os.ReadFile(target)
+		sibAfter := map[string]string{}
+		if multi {
+			for _, sb := range cs.Siblings {
+				b, _ := os.ReadFile(filepath.Join(dir, sb.Name))
+				sibAfter[sb.Name] = string(b)
+			}
+		}
 		cleanup()
 		if r.StartErr != "" || r.TimedOut || r.Crashed() {
 			return "", "foreign:C08", hit, judged
 		}
-		if !(generated && strings.Contains(mode.Name, "skipgenerated")) {
+		if !(generated && strings.Contains(mode.Name, "skipgenerated")) && !multi {
 			exits[mode.Name] = r.Exit
 			// only failures of the rewrite itself (not of writing the file)
 			if se := string(r.Stderr); r.Exit != 0 && firstErr == "" && (strings.Contains(se, "reformat \"") || strings.Contains(se, "could not update \"") || strings.Contains(se, "failed to rewrite \"")) {
@@ -362,6 +390,19 @@ func evalC07(cs *c07Case) (sig, msg string, hit bool, judged bool) {
 				emitted = applied
 			}
 		}
+		if multi {
+			// Whatever the exit status (one file failing does not stop the
+			// others): a file that was written holds Go.
+			sibAfter[cs.name()] = string(after)
+			for _, sb := range append([]c07Sibling{{Name: cs.name(), Src: cs.File}}, cs.Siblings...) {
+				if got := sibAfter[sb.Name]; got != sb.Src {
+					hit = true
+					if err := c07Parses([]byte(got)); err != nil {
+						return "emitted-unparseable:" + mode.Name + ":multi", fmt.Sprintf("gopatch %s on %d files (exit %d) leaves %s with text that does not parse: %v\n--- written ---\n%s\n--- it was ---\n%s\n%s", strings.Join(mode.Args, " "), len(cs.Siblings)+1, r.Exit, sb.Name, err, trunc(got, 1500), trunc(sb.Src, 1500), show()), hit, judged
+					}
+				}
+			}
+		}
 		if r.Exit == 0 {
 			if emitted != cs.File && emitted != "" {
 				hit = true
@@ -378,6 +419,10 @@ func evalC07(cs *c07Case) (sig, msg string, hit bool, judged bool) {
 		hit = true
 		if r.Exit != 1 {
 			return "", "foreign:C08 exit status", hit, judged
+		}
+		if multi {
+			// which of the files failed is C16's business
+			continue
 		}
 		if !strings.Contains(string(r.Stderr), cs.name()) {
 			return "error-does-not-name-file:" + mode.Name, fmt.Sprintf("gopatch %s exits %d but stderr does not name the file: %q\n%s", strings.Join(mode.Args, " "), r.Exit, trunc(string(r.Stderr), 400), show()), hit, judged
@@ -426,6 +471,42 @@ func TestC07(t *testing.T) {
 		if rapid.IntRange(0, 5).Draw(rt, "longName") == 0 {
 			cs.Name = c07LongName
 			cs.Family += "+long-name"
+		}
+		switch rapid.IntRange(0, 9).Draw(rt, "layout") {
+		case 0:
+			cs.File += c07Blob()
+			cs.Family += "+long-line"
+		case 1:
+			cs.File = strings.ReplaceAll(cs.File, "\n", "\r\n")
+			cs.Family += "+crlf"
+		case 2:
+			cs.File = strings.ReplaceAll(cs.File+c07Blob(), "\n", "\r\n")
+			cs.Family += "+crlf+long-line"
+		}
+		if cs.Name == "" && rapid.IntRange(0, 3).Draw(rt, "multi") == 0 {
+			// further files for the same patch, of other sizes, before and
+			// after f.go in the order of the command line
+			n := rapid.IntRange(1, 2).Draw(rt, "nSiblings")
+			for i := 0; i < n; i++ {
+				var src string
+				if strings.HasPrefix(cs.Family, "template") {
+					for tries := 0; tries < 20; tries++ {
+						o := c07TemplateCase(rt)
+						if o.Patch == cs.Patch {
+							src = o.File
+							break
+						}
+					}
+				}
+				if src == "" {
+					src = cs.File + fmt.Sprintf("\nfunc c07extra%d() {\n\tc07extra%d()\n}\n", i, i)
+					if rapid.Bool().Draw(rt, fmt.Sprintf("short%d", i)) {
+						src = strings.Replace(cs.File, "\n", "\n// "+strings.Repeat("pad ", rapid.IntRange(1, 40).Draw(rt, fmt.Sprintf("pad%d", i)))+"\n", 1)
+					}
+				}
+				cs.Siblings = append(cs.Siblings, c07Sibling{Name: fmt.Sprintf("g%d.go", i), Src: src})
+			}
+			cs.Family += "+multi"
 		}
 		sig, msg, hit, judged := evalC07(cs)
 		if !judged {
